@@ -919,7 +919,7 @@ func (w *World) dumpModules(ctx sdk.Context) []string {
 		var src []string
 		for _, od := range ri.OracleData {
 			for _, s := range od.Sources {
-				src = append(src, fmt.Sprintf("%d:%s", int32(od.Topic), EncStr(strings.ToLower(s))))
+				src = append(src, fmt.Sprintf("%d:%s", int32(od.Topic), EncStr(CanonSource(s))))
 			}
 		}
 		out = append(out, fmt.Sprintf("R id=%d pe=%d ve=%d src=%s", ri.Id, ri.PrevoteEnd, ri.VoteEnd, join(src)))
@@ -953,6 +953,18 @@ func (w *World) dumpModules(ctx sdk.Context) []string {
 	sort.Slice(fsl, func(i, j int) bool { return valKey(fsl[i]) < valKey(fsl[j]) })
 	out = append(out, fsl...)
 	return out
+}
+
+// CanonSource lower-cases the two hex parts of a formatted NFT id (checksum casing is canonicalised away), not the chain id.
+func CanonSource(s string) string {
+	p := strings.Split(s, "/")
+	if len(p) < 3 {
+		return s
+	}
+	n := len(p)
+	p[n-1] = strings.ToLower(p[n-1])
+	p[n-2] = strings.ToLower(p[n-2])
+	return strings.Join(p, "/")
 }
 
 // valKey orders "X v3 ..." lines by validator index, lower-case spelling first.
